@@ -147,9 +147,9 @@ pub fn misaligned_witness(which: u8) {
 
 inst!(lane_small4, [props=C01+C02+C07+C11 tier=quick cfg=x86std t=600 role=lane-contract-spec-sanity], 34, contract::<4>(0));
 #[cfg(any(vcfg_x86std, vcfg_x86none, vcfg_x86alloc, vcfg_x86avx2, vcfg_x86rel))]
-inst!(lane_sse2, [props=C01+C02+C07+C09+C11+C12 tier=quick cfg=x86std t=900 role=lane-contract-sse2], 34, contract::<16>(1));
+inst!(lane_sse2, [props=C01+C02+C07+C09+C11+C12+C06 tier=quick cfg=x86std t=900 role=lane-contract-sse2], 34, contract::<16>(1));
 #[cfg(any(vcfg_x86std, vcfg_x86none, vcfg_x86alloc, vcfg_x86avx2, vcfg_x86rel))]
-inst!(lane_avx2, [props=C01+C02+C07+C09+C11+C12 tier=quick cfg=x86std+x86avx2 t=900 role=lane-contract-avx2], 34, contract::<32>(2));
+inst!(lane_avx2, [props=C01+C02+C07+C09+C11+C12+C06 tier=quick cfg=x86std+x86avx2 t=900 role=lane-contract-avx2], 34, contract::<32>(2));
 #[cfg(vcfg_neon)]
 inst!(lane_neon, [props=C01+C02+C07+C09+C11 tier=quick cfg=neon t=900 role=lane-contract-neon], 34, contract::<16>(3));
 #[cfg(vcfg_simd128)]
